@@ -13,6 +13,8 @@ from typing import List
 from typing import Mapping
 from typing import MutableMapping
 from typing import MutableSequence
+from typing import Sequence
+from typing import Tuple
 from typing import TypeVar
 from typing import Union
 
@@ -43,6 +45,64 @@ class Op(ABC):
         """Return a dictionary representation of this operation."""
 
 
+def _target(
+    pointer: JSONPointer,
+    data: Union[MutableSequence[object], MutableMapping[str, object]],
+) -> Tuple[object, Union[int, str], object]:
+    """Resolve _pointer_ against _data_ as a JSON Patch target location.
+
+    Returns a `(parent, token, obj)` tuple. `parent` is `None` if _pointer_ is
+    the root pointer, and `obj` is `UNDEFINED` if the target does not exist.
+    Non-standard `#` and `~` pointer tokens are not recognized here, and object
+    member names are always strings, even if they look like array indices.
+    """
+    parent, obj = pointer.resolve_parent(data)
+    if parent is None:
+        return (None, "", obj)
+
+    token = pointer.parts[-1]
+    if isinstance(parent, Mapping):
+        token = str(token)
+        obj = parent[token] if token in parent else UNDEFINED
+    elif isinstance(token, str) and token.startswith("#"):
+        obj = UNDEFINED
+    return (parent, token, obj)
+
+
+def _insert(
+    parent: MutableSequence[object], token: Union[int, str], obj: object, value: object
+) -> None:
+    """Insert _value_ into the array _parent_ at the index given by _token_."""
+    if obj is UNDEFINED:
+        # "-" and an index equal to the length of the array mean "append".
+        if token == "-" or str(token) == str(len(parent)):
+            parent.append(value)
+        else:
+            raise JSONPatchError("index out of range")
+    else:
+        parent.insert(int(token), value)
+
+
+def _equal(left: object, right: object) -> bool:
+    """JSON value equality. Booleans are not numbers, at any depth."""
+    if isinstance(left, bool) or isinstance(right, bool):
+        return isinstance(left, bool) and isinstance(right, bool) and left == right
+    if isinstance(left, Mapping) and isinstance(right, Mapping):
+        return len(left) == len(right) and all(
+            k in right and _equal(v, right[k]) for k, v in left.items()
+        )
+    if (
+        isinstance(left, Sequence)
+        and isinstance(right, Sequence)
+        and not isinstance(left, str)
+        and not isinstance(right, str)
+    ):
+        return len(left) == len(right) and all(
+            _equal(a, b) for a, b in zip(left, right)
+        )
+    return left == right
+
+
 class OpAdd(Op):
     """The JSON Patch _add_ operation."""
 
@@ -58,23 +118,16 @@ class OpAdd(Op):
         self, data: Union[MutableSequence[object], MutableMapping[str, object]]
     ) -> Union[MutableSequence[object], MutableMapping[str, object]]:
         """Apply this patch operation to _data_."""
-        parent, obj = self.path.resolve_parent(data)
+        parent, target, obj = _target(self.path, data)
         if parent is None:
             # Replace the root object.
             # The following op, if any, will raise a JSONPatchError if needed.
-            return self.value  # type: ignore
+            return copy.deepcopy(self.value)  # type: ignore
 
-        target = self.path.parts[-1]
         if isinstance(parent, MutableSequence):
-            if obj is UNDEFINED:
-                if target == "-":
-                    parent.append(self.value)
-                else:
-                    raise JSONPatchError("index out of range")
-            else:
-                parent.insert(int(target), self.value)
+            _insert(parent, target, obj, copy.deepcopy(self.value))
         elif isinstance(parent, MutableMapping):
-            parent[target] = self.value
+            parent[target] = copy.deepcopy(self.value)
         else:
             raise JSONPatchError(
                 f"unexpected operation on {parent.__class__.__name__!r}"
@@ -103,21 +156,10 @@ class OpAddNe(OpAdd):
         self, data: Union[MutableSequence[object], MutableMapping[str, object]]
     ) -> Union[MutableSequence[object], MutableMapping[str, object]]:
         """Apply this patch operation to _data_."""
-        parent, obj = self.path.resolve_parent(data)
-        if parent is None:
-            # Replace the root object.
-            # The following op, if any, will raise a JSONPatchError if needed.
-            return self.value  # type: ignore
-
-        target = self.path.parts[-1]
-        if isinstance(parent, MutableSequence):
-            if obj is UNDEFINED:
-                parent.append(self.value)
-            else:
-                parent.insert(int(target), self.value)
-        elif isinstance(parent, MutableMapping) and target not in parent:
-            parent[target] = self.value
-        return data
+        parent, target, _ = _target(self.path, data)
+        if isinstance(parent, MutableMapping) and target in parent:
+            return data
+        return super().apply(data)
 
 
 class OpAddAp(OpAdd):
@@ -137,25 +179,11 @@ class OpAddAp(OpAdd):
         self, data: Union[MutableSequence[object], MutableMapping[str, object]]
     ) -> Union[MutableSequence[object], MutableMapping[str, object]]:
         """Apply this patch operation to _data_."""
-        parent, obj = self.path.resolve_parent(data)
-        if parent is None:
-            # Replace the root object.
-            # The following op, if any, will raise a JSONPatchError if needed.
-            return self.value  # type: ignore
-
-        target = self.path.parts[-1]
-        if isinstance(parent, MutableSequence):
-            if obj is UNDEFINED:
-                parent.append(self.value)
-            else:
-                parent.insert(int(target), self.value)
-        elif isinstance(parent, MutableMapping):
-            parent[target] = self.value
-        else:
-            raise JSONPatchError(
-                f"unexpected operation on {parent.__class__.__name__!r}"
-            )
-        return data
+        parent, _, obj = _target(self.path, data)
+        if isinstance(parent, MutableSequence) and obj is UNDEFINED:
+            parent.append(copy.deepcopy(self.value))
+            return data
+        return super().apply(data)
 
 
 class OpRemove(Op):
@@ -172,18 +200,18 @@ class OpRemove(Op):
         self, data: Union[MutableSequence[object], MutableMapping[str, object]]
     ) -> Union[MutableSequence[object], MutableMapping[str, object]]:
         """Apply this patch operation to _data_."""
-        parent, obj = self.path.resolve_parent(data)
+        parent, target, obj = _target(self.path, data)
         if parent is None:
             raise JSONPatchError("can't remove root")
 
         if isinstance(parent, MutableSequence):
             if obj is UNDEFINED:
                 raise JSONPatchError("can't remove nonexistent item")
-            del parent[int(self.path.parts[-1])]
+            del parent[int(target)]
         elif isinstance(parent, MutableMapping):
             if obj is UNDEFINED:
                 raise JSONPatchError("can't remove nonexistent property")
-            del parent[self.path.parts[-1]]
+            del parent[target]
         else:
             raise JSONPatchError(
                 f"unexpected operation on {parent.__class__.__name__!r}"
@@ -210,18 +238,18 @@ class OpReplace(Op):
         self, data: Union[MutableSequence[object], MutableMapping[str, object]]
     ) -> Union[MutableSequence[object], MutableMapping[str, object]]:
         """Apply this patch operation to _data_."""
-        parent, obj = self.path.resolve_parent(data)
+        parent, target, obj = _target(self.path, data)
         if parent is None:
-            return self.value  # type: ignore
+            return copy.deepcopy(self.value)  # type: ignore
 
         if isinstance(parent, MutableSequence):
             if obj is UNDEFINED:
                 raise JSONPatchError("can't replace nonexistent item")
-            parent[int(self.path.parts[-1])] = self.value
+            parent[int(target)] = copy.deepcopy(self.value)
         elif isinstance(parent, MutableMapping):
             if obj is UNDEFINED:
                 raise JSONPatchError("can't replace nonexistent property")
-            parent[self.path.parts[-1]] = self.value
+            parent[target] = copy.deepcopy(self.value)
         else:
             raise JSONPatchError(
                 f"unexpected operation on {parent.__class__.__name__!r}"
@@ -251,26 +279,27 @@ class OpMove(Op):
         if self.dest.is_relative_to(self.source):
             raise JSONPatchError("can't move object to one of its own children")
 
-        source_parent, source_obj = self.source.resolve_parent(data)
+        source_parent, source_target, source_obj = _target(self.source, data)
 
         if source_obj is UNDEFINED:
             raise JSONPatchError("source object does not exist")
 
         if isinstance(source_parent, MutableSequence):
-            del source_parent[int(self.source.parts[-1])]
-        if isinstance(source_parent, MutableMapping):
-            del source_parent[self.source.parts[-1]]
+            del source_parent[int(source_target)]
 
-        dest_parent, _ = self.dest.resolve_parent(data)
+        if isinstance(source_parent, MutableMapping):
+            del source_parent[source_target]
+
+        dest_parent, dest_target, dest_obj = _target(self.dest, data)
 
         if dest_parent is None:
             # Move source to root
             return source_obj  # type: ignore
 
         if isinstance(dest_parent, MutableSequence):
-            dest_parent.insert(int(self.dest.parts[-1]), source_obj)
+            _insert(dest_parent, dest_target, dest_obj, source_obj)
         elif isinstance(dest_parent, MutableMapping):
-            dest_parent[self.dest.parts[-1]] = source_obj
+            dest_parent[dest_target] = source_obj
         else:
             raise JSONPatchError(
                 f"unexpected operation on {dest_parent.__class__.__name__!r}"
@@ -298,21 +327,21 @@ class OpCopy(Op):
         self, data: Union[MutableSequence[object], MutableMapping[str, object]]
     ) -> Union[MutableSequence[object], MutableMapping[str, object]]:
         """Apply this patch operation to _data_."""
-        source_parent, source_obj = self.source.resolve_parent(data)
+        _, _, source_obj = _target(self.source, data)
 
         if source_obj is UNDEFINED:
             raise JSONPatchError("source object does not exist")
 
-        dest_parent, dest_obj = self.dest.resolve_parent(data)
+        dest_parent, dest_target, dest_obj = _target(self.dest, data)
 
         if dest_parent is None:
             # Copy source to root
             return copy.deepcopy(source_obj)  # type: ignore
 
         if isinstance(dest_parent, MutableSequence):
-            dest_parent.insert(int(self.dest.parts[-1]), copy.deepcopy(source_obj))
+            _insert(dest_parent, dest_target, dest_obj, copy.deepcopy(source_obj))
         elif isinstance(dest_parent, MutableMapping):
-            dest_parent[self.dest.parts[-1]] = copy.deepcopy(source_obj)
+            dest_parent[dest_target] = copy.deepcopy(source_obj)
         else:
             raise JSONPatchError(
                 f"unexpected operation on {dest_parent.__class__.__name__!r}"
@@ -340,8 +369,8 @@ class OpTest(Op):
         self, data: Union[MutableSequence[object], MutableMapping[str, object]]
     ) -> Union[MutableSequence[object], MutableMapping[str, object]]:
         """Apply this patch operation to _data_."""
-        _, obj = self.path.resolve_parent(data)
-        if not obj == self.value:
+        _, _, obj = _target(self.path, data)
+        if obj is UNDEFINED or not _equal(obj, self.value):
             raise JSONPatchTestFailure
         return data
 
